@@ -620,7 +620,7 @@ func corruptLeg(c *harness.Ctx, rng *rand.Rand, idx desync.Index, raw []byte, sh
 	n := len(idx.Chunks)
 	kinds := []string{"flag", "hdr-size", "hdr-type", "tbl-size", "tbl-type", "zero2", "tail-offset", "tail-size", "tail-marker"}
 	if n >= 2 {
-		kinds = append(kinds, "decrease-last", "decrease-middle", "decrease-last", "equal")
+		kinds = append(kinds, "decrease-last", "decrease-middle", "decrease-last", "equal", "zero-tail", "zero-tail")
 	}
 	if n >= 1 && idx.Index.ChunkSizeMax < 1<<62 { // above that no offset can express a chunk larger than the maximum
 		kinds = append(kinds, "too-large")
@@ -654,6 +654,25 @@ func corruptLeg(c *harness.Ctx, rng *rand.Rand, idx desync.Index, raw []byte, sh
 		put(tail+24, get(tail+24)+uint64(1+rng.Intn(1000)))
 	case "tail-marker":
 		put(tail+32, get(tail+32)^1)
+	case "zero-tail":
+		// the file lost its end and zeros stand in its place (a crash after the blocks were allocated, a copy padded to a
+		// block size): the header, k items, then nothing but zeros - a table of k chunks that describes a shorter blob
+		k := 1 + rng.Intn(n-1)
+		end := len(bad)
+		switch rng.Intn(3) {
+		case 0:
+			end = item(k) + 40 // exactly one tail record of zeros
+		case 1:
+			end = item(k) + 40 + rng.Intn(4096)
+		}
+		if end > len(bad) {
+			bad = append(bad, make([]byte, end-len(bad))...)
+		}
+		bad = bad[:end]
+		for j := item(k); j < len(bad); j++ {
+			bad[j] = 0
+		}
+		mustReject = true
 	case "decrease-last":
 		// the last end offset drops below its predecessor (nothing follows that could trip the max check)
 		prev := get(item(n - 2))
